@@ -70,5 +70,6 @@ Definition judge_fixpnt (cfg : list Z) (op : Z) (args res : list Z) : verdict :=
   if Z.eqb op OP_from_uint then exact [fx_of_Q n r sat (inject_Z (int_decode false a b))] true else
   if Z.eqb op OP_to_f64 then judge_to_f64 (num_of_Q (Qred (fx_val n r a))) res else
   if Z.eqb op OP_to_f32 then judge_to_f32 (num_of_Q (Qred (fx_val n r a))) res else
+  if Z.eqb op OP_conv then exact [fx_of_Q (nth0 cfg 4) (nth0 cfg 5) (Z.eqb (nth0 cfg 6) 1) (Qred (fx_val n r a))] true else
   if Z.eqb op OP_to_f64_rt then (if Z.leb n 53 then exact [wrap n a] true else mkV true res false) else
   mkV false [] false.
